@@ -198,12 +198,12 @@ theorem rd_poll2 {g : E2E.Cfg} (ok : Cfg2 g) {r : AReq} {h : HState} {e : Run.En
   · omega
 
 theorem handler_core2 {g : E2E.Cfg} (ok : Cfg2 g) {c : Conn} {r : AReq} {h : HState} (hph : c.phase = .handler r h)
-    (hout : HOut g.Wc g.Rd c.env (handlerPoll (handlerFuel c.env) r h c.env))
+    (hout : HOut g.Wc g.Rd c.env (handlerPoll (handlerFuel c.env r) r h c.env))
     (hb : Ben c.env.tr) (hem : c.env.tr.endMode = .eof) (hstop : c.stop = false) (hev : Ev1 g c.env.tr)
     (hsc : c.scripts = g.more) :
     Res g (2 * c.env.tr.input.length + 10) c := by
   have hstep := C07.handler_step c r h hph
-  rcases hhp : handlerPoll (handlerFuel c.env) r h c.env with ⟨r', h', e', res⟩
+  rcases hhp : handlerPoll (handlerFuel c.env r) r h c.env with ⟨r', h', e', res⟩
   rw [hhp] at hstep hout
   obtain ⟨hts, hsegs, hres⟩ := hout
   simp only at hts hsegs hres
@@ -328,9 +328,9 @@ theorem parse_poll2 {g : E2E.Cfg} (ok : Cfg2 g) {c : Conn} {F : Bytes}
     have hben2 : Ben (t'.ev (hsEvent g.p.request)) := hben1.wstep hwsE
     have hem2 : (t'.ev (hsEvent g.p.request)).endMode = .eof := hwsE.em.trans (hfr.ts.em.trans hem)
     have hfuelH : 1000 + 4 * t'.input.length ≤
-        handlerFuel ((⟨t', c1.env.mutex, c1.env.segs⟩ : Run.Env).ev (hsEvent g.p.request)) := by
-      show 1000 + 4 * t'.input.length ≤ 1000 + t'.input.length * 4 + _
-      omega
+        handlerFuel ((⟨t', c1.env.mutex, c1.env.segs⟩ : Run.Env).ev (hsEvent g.p.request))
+          (AReq.new (Str.Parser.fromParser g.cap g.p.request e1 g.mc)) :=
+      handlerFuel_ge ((⟨t', c1.env.mutex, c1.env.segs⟩ : Run.Env).ev (hsEvent g.p.request)) _
     have hcore := handler_core2 ok
       (c := ⟨.handler (AReq.new (Str.Parser.fromParser g.cap g.p.request e1 g.mc))
               { ops := g.hscript, propagate := true },
@@ -388,10 +388,10 @@ theorem stage_poll2 {g : E2E.Cfg} (ok : Cfg2 g) {c : Conn} (hst : Stage g c) (he
   | start hph hwire hraw hlog hb hstop hsc hm hev => exact start_poll2 ok hph hwire hraw hlog hb hem hstop hsc hm hev
   | parse hst hsc hm hev => exact (parse_poll2 ok hst hem hsc hm hev).mono (by omega)
   | @hread r h hph hr hb hstop hev hsc =>
-    exact (handler_core2 ok hph (rd_poll2 ok hr hb (handlerFuel_ge c.env)) hb hem hstop hev hsc).mono (by omega)
+    exact (handler_core2 ok hph (rd_poll2 ok hr hb (handlerFuel_ge c.env _)) hb hem hstop hev hsc).mono (by omega)
   | @hwrite r h O1 hph hw hb hstop hev hsc =>
     refine (handler_core2 ok hph (write_phase hw hb ?_) hb hem hstop hev hsc).mono (by omega)
-    have := handlerFuel_ge c.env
+    have := handlerFuel_ge c.env r
     have := wfuel2 ok
     show wcost g.data.length + 3 ≤ _
     omega
